@@ -491,6 +491,10 @@ def bi_str(interp, st, args, kwargs, node):
     v = args[0] if args else ""
     if isinstance(v, (str, int)) and not isinstance(v, bool):
         return str(v)
+    if is_sym(v) and v.sort() == z3.StringSort():
+        return v
+    if is_sym(v) and v.sort() == z3.IntSort():
+        return _I().PY_STR_INT(v)
     return _I().Opaque("str")
 
 
@@ -1673,6 +1677,9 @@ def m_str_startswith(interp, st, base, base_node, args, kwargs, node):
 
 
 def m_str_removeprefix(interp, st, base, base_node, args, kwargs, node):
+    if is_sym(base) and isinstance(args[0], str):
+        pre = z3.StringVal(args[0])
+        return z3.If(z3.PrefixOf(pre, base), z3.SubString(base, len(args[0]), z3.Length(base) - len(args[0])), base)
     return base.removeprefix(args[0])
 
 
@@ -1861,3 +1868,35 @@ def torch_tensor(interp, st, args, kwargs, node):
 
 
 LIBFUNCS.update({"torch.tensor": torch_tensor})
+
+
+def lib_uf(name, arg_kinds, res_kind):
+    """a library function we do not look into: an uninterpreted function (pure: same arguments, same result)"""
+    sorts = {"str": z3.StringSort(), "int": z3.IntSort(), "obj": None}
+
+    def fn(interp, st, args, kwargs, node):
+        I = _I()
+        if kwargs or len(args) != len(arg_kinds):
+            raise Outside(f"{name} with other arguments than modelled", node)
+        zs = []
+        for a, k in zip(args, arg_kinds):
+            if isinstance(a, I.ObjMethod):
+                a = a.value
+            if isinstance(a, str):
+                a = z3.StringVal(a)
+            zs.append(to_z3(a))
+        rs = I.OBJ_SORT if res_kind == "obj" else sorts[res_kind]
+        _trust(f"{name} is a pure function (its value is not interpreted)")
+        f = z3.Function("lib." + name + "!" + "_".join(str(z.sort()) for z in zs), *([z.sort() for z in zs] + [rs]))
+        return f(*zs)
+
+    return fn
+
+
+LIBFUNCS.update({
+    "json.dumps": lib_uf("json.dumps", ["obj"], "str"),
+    "muutils.misc.stable_hash": lib_uf("stable_hash", ["str"], "int"),
+    "muutils.misc.sanitize_fname": lib_uf("sanitize_fname", ["str"], "str"),
+    "muutils.misc.shorten_numerical_to_str": lib_uf("shorten_numerical_to_str", ["int"], "str"),
+})
+METHODS[("scalar", "removeprefix")] = m_str_removeprefix
